@@ -182,7 +182,9 @@ class SpectralAnalyzer(BaseAnalyzer):
             # Get negative frequencies, as well as positive:
             f = ((np.arange(data.shape[-1]) - data.shape[-1] // 2) *
                  sampling_rate / data.shape[-1])
-            spectrum_fourier = np.fft.fftshift(fft(data))
+            # (only the frequency axis is re-ordered: the channels of
+            # multi-channel data stay where they are)
+            spectrum_fourier = np.fft.fftshift(fft(data), axes=-1)
         else:
             f = tsu.get_freqs(sampling_rate, data.shape[-1])
             spectrum_fourier = fft(data)[..., :f.shape[0]]
